@@ -9,8 +9,9 @@ LEVEL = "proof"
 DESIGN_REF = "DESIGN.md §9 C09, §12.C09"
 COQ_TARGETS = ["Properties/C09", "Pins/C09"]
 THEOREMS = [("PdfV.Properties.C09", n) for n in
-            ["C09_read_your_writes", "C09_get_coherent", "C09_xref_roundtrip", "C09_startxref_found", "C09_prefix",
-             "C09_failed_save_recovers", "C09_reload", "C09_second_save", "C09_byte_len_fits"]]
+            ["C09_read_your_writes", "C09_get_coherent", "C09_byte_len_fits", "C09_xref_roundtrip", "C09_prefix",
+             "C09_save_layout", "C09_reload", "C09_reload_untouched", "C09_failed_save_recovers", "C09_second_save",
+             "C09_wf_preserved"]]
 ANCHORS = ["file.rs", "xref.rs"]
 if os.environ.get("VP_DEV"):
     COQ_TARGETS, THEOREMS = ["Storage/Run"], []
@@ -431,6 +432,9 @@ def check_history(base, h, want_tags=None):
                         elif n in infra_val:
                             if got != infra_val[n]:
                                 return "after reload infrastructure object %d changed" % n
+                        elif n in base.infra:
+                            if got.startswith(b"!"):
+                                return "after reload infrastructure object %d no longer resolves" % n
                         else:
                             # nothing else may appear, except the bookkeeping objects of the save itself
                             if not (got.startswith(b"!") or got.startswith(XREF_PREFIX) or (base.info is not None and got == cv(base.info))):
@@ -508,11 +512,138 @@ def always(case, r):
 _W = {}
 
 
+def uncanon(b):
+    """canon text -> python value (inverse of oracle.canon.canon)"""
+    import struct
+    pos = 0
+
+    def hexrun():
+        nonlocal pos
+        st = pos
+        while pos < len(b) and b[pos:pos + 1] in b"0123456789abcdef" and b[pos:pos + 1] != b"":
+            pos += 1
+        if (pos - st) % 2:
+            pos -= 1
+        return bytes.fromhex(b[st:pos].decode())
+
+    def num():
+        nonlocal pos
+        st = pos
+        if b[pos:pos + 1] == b"-":
+            pos += 1
+        while pos < len(b) and b[pos:pos + 1].isdigit():
+            pos += 1
+        return int(b[st:pos])
+
+    def dic():
+        nonlocal pos
+        d = {}
+        pos += 1
+        while b[pos:pos + 1] != b"}":
+            if b[pos:pos + 1] == b" ":
+                pos += 1
+            k = hexrun().decode()
+            pos += 1
+            d[k] = val()
+        pos += 1
+        return d
+
+    def val():
+        nonlocal pos
+        c = b[pos:pos + 1]
+        if c == b"{":
+            return dic()
+        pos += 1
+        if c == b"n":
+            return None
+        if c == b"t":
+            return True
+        if c == b"f":
+            return False
+        if c == b"i":
+            return num()
+        if c == b"r":
+            v = struct.unpack(">f", bytes.fromhex(b[pos:pos + 8].decode()))[0]
+            pos += 8
+            return v
+        if c in (b"N", b"S"):
+            x = hexrun()
+            pos += 1
+            return Name(x) if c == b"N" else x
+        if c == b"R":
+            i = num()
+            pos += 1
+            return Ref(i, num())
+        if c == b"[":
+            out = []
+            while b[pos:pos + 1] != b"]":
+                if b[pos:pos + 1] == b" ":
+                    pos += 1
+                out.append(val())
+            pos += 1
+            return out
+        if c == b"s":
+            d = dic()
+            data = hexrun()
+            pos += 1
+            ln = d.pop("Length", None)
+            return Stream(d, data, raw_len=ln)
+        raise ValueError(b[pos - 1:pos + 10])
+    v = val()
+    if pos != len(b):
+        raise ValueError("trailing")
+    return v
+
+
+def witness_base(kind):
+    """the fixed base file of the recorded witnesses (build/scratch/probe2.py: base())"""
+    fmt, comp, prefix = kind
+    objs = minimal_catalog()
+    objs[4] = {"A": 1, "B": [1, 2, Name("x")]}
+    objs[5] = Stream({"K": 7}, b"hello stream")
+    rev = Revision({n: Obj(v) for n, v in objs.items()}, fmt=fmt, trailer={"Root": Ref(1)})
+    values = {n: (0, v) for n, v in objs.items()}
+    if comp:
+        rev.entries[6] = Comp({"C": 1}); rev.entries[7] = Comp([1, 2])
+        values[6] = (0, {"C": 1}); values[7] = (0, [1, 2])
+    data, info = write_file([rev], prefix=bytes.fromhex(prefix))
+    infra = set(n for n, t in info["revisions"][-1]["table"].items() if n not in values and t[0] == "n")
+    return Base(data, values, infra, info["revisions"][-1]["size"], "witness")
+
+
+def hist_of_text(base, text):
+    h = Hist(base)
+    for line in text.split(b"\n"):
+        if not line:
+            continue
+        op = line[:1]
+        if op == b"C":
+            v = uncanon(line[2:])
+            h.add(line, "C", v)
+        elif op in (b"U", b"F"):
+            _, r, vt = line.split(b" ", 2)
+            ref = ("h", int(r[1:])) if r.startswith(b"h") else ("b",) + tuple(int(x) for x in r.split(b","))
+            if vt.startswith(b"@"):
+                h.add(line, "Uinfile", ref, int(vt[1:].split(b",")[0]))
+            else:
+                h.add(line, op.decode(), ref, uncanon(vt))
+        elif op == b"P":
+            h.add(line, "P")
+        elif op in (b"R", b"G"):
+            h.add(line, op.decode(), None)
+        elif op == b"S":
+            h.add(line, "S")
+    return h
+
+
 def witness_case(f, c):
-    # witnesses carry their own expectation: the exact output the specification demands
-    exp = f.get("expect_hex")
-    if exp is not None:
-        c.expect = ok(*[bytes.fromhex(x) for x in exp])
+    # the recorded witnesses are judged by the same specification as every generated history
+    base = witness_base(f["witness"]["base_kind"])
+    if base.data != c.fields[1]:
+        c.check = lambda r: "the witness base file can no longer be reconstructed"
+        return c
+    h = hist_of_text(base, c.fields[2])
+    c.check = check_history(base, h)
     return c
 
 
